@@ -506,6 +506,44 @@ fn search(a: &Args, tracer: &Tracer) {
     }
 }
 
+/// For every frequent body word: Bm25Weight::max_score() of the searcher against the best score a document really gets
+/// (a bound that is exceeded is an observation; nothing is judged here)
+fn maxscore_probe(a: &Args, tracer: &Tracer) {
+    use tantivy::query::{Bm25Weight, EnableScoring, TermQuery};
+    use tantivy::schema::IndexRecordOption;
+    use tantivy::{DocSet, Term, TERMINATED};
+    let mut rng = StdRng::seed_from_u64(a.num("seed", 1));
+    let ndocs = a.num("docs", 2500) as usize;
+    let schema = qlib::rich_schema();
+    let docs = qlib::gen_corpus(&mut rng, ndocs, false);
+    let nseg = a.num("segments", 1) as usize;
+    let mut cuts: Vec<usize> = (0..nseg - 1).map(|_| rng.random_range(1..ndocs)).collect();
+    cuts.sort();
+    let index: Index = qlib::build_index(&schema, &docs, &cuts, &[], false).expect("index");
+    let s = index.reader().unwrap().searcher();
+    let body = schema.get_field("body").unwrap();
+    for w in ["b0", "b1", "b2"] {
+        let term = Term::from_field_text(body, w);
+        let bw = Bm25Weight::for_terms(&s, &[term.clone()]).unwrap();
+        let q = TermQuery::new(term, IndexRecordOption::WithFreqs);
+        let weight = q.weight(EnableScoring::enabled_from_searcher(&s)).unwrap();
+        let mut best = (0f32, 0u32, 0u32);
+        for (ord, sr) in s.segment_readers().iter().enumerate() {
+            let mut sc = weight.scorer(sr, 1.0).unwrap();
+            let mut d = sc.doc();
+            while d != TERMINATED {
+                let x = sc.score();
+                if x > best.0 {
+                    best = (x, ord as u32, d);
+                }
+                d = sc.advance();
+            }
+        }
+        tracer.emit(json!({"ev":"info","word":w,"bm25_max_score":bw.max_score(),"best_real_score":best.0,"at":[best.1,best.2],
+                           "exceeded": best.0 > bw.max_score()}));
+    }
+}
+
 fn main() {
     if std::env::var("VERIF_PANIC_TRACE").is_err() {
         std::panic::set_hook(Box::new(|_| {}));
@@ -514,6 +552,7 @@ fn main() {
     let tracer = Tracer::to_file(&a.get("out", "/dev/stdout"));
     match a.pos.first().map(|s| s.as_str()).unwrap_or("") {
         "topn" => topn(&a, &tracer),
+        "maxscore" => maxscore_probe(&a, &tracer),
         "search" => search(&a, &tracer),
         _ => {
             eprintln!("usage: topk_driver topn|search ...");
